@@ -25,7 +25,7 @@ POS = {"first": 5, "middle": 130, "last": 235}
 
 DATA_FAULTS = ["nan_ra", "inf_dec", "nan_weight", "inf_redshift", "pid_-1", "pid_32768", "pid_40000", "pid_nan", "pid_inf",
                "fail_worker", "fail_writer", "fail_reader"]
-STRUCT_FAULTS = ["missing_column", "unequal_length", "unequal_length_longer", "no_patch_method", "empty_centre_first", "empty_centre_middle",
+STRUCT_FAULTS = ["missing_column", "unequal_length", "unequal_length_longer", "unequal_length_longer_patch", "no_patch_method", "empty_centre_first", "empty_centre_middle",
                  "empty_centre_last"]
 DIR_FAULTS = ["exists_valid_no_overwrite", "overwrite_valid", "overwrite_empty_dir", "overwrite_foreign_dir",
               "overwrite_regular_file", "exists_regular_file_no_overwrite", "parent_missing", "parent_is_file", "none"]
@@ -205,8 +205,9 @@ class C09(Check):
             k = {"first": 0, "middle": 2, "last": 3}[fault.split("_")[2]]
             centres = np.insert(centres, k, extra, axis=0)
 
-        if mode == "index":
+        if mode == "index" or fault == "unequal_length_longer_patch":
             kwargs["patch_name"] = "patch"
+            mode = "index"
         if fault == "no_patch_method":
             kwargs.pop("patch_name", None)
         if fault == "missing_column":
@@ -241,7 +242,7 @@ class C09(Check):
         if source == "hdf5":
             write_hdf(hpath, cols, skip="z" if fault == "missing_column" else None,
                       short="w" if fault == "unequal_length" else None,
-                      long="z" if fault == "unequal_length_longer" else None)
+                      long="z" if fault == "unequal_length_longer" else ("patch" if fault == "unequal_length_longer_patch" else None))
         elif source in ("fits", "parquet"):
             from vlib import sources as vsources
 
